@@ -107,7 +107,33 @@ def gen_const():
     return {"GenConst.v": txt}
 
 
-GENERATORS = [gen_symbols, gen_rules, gen_const]
+def mol_graph(m):
+    """labelled graph of an RDKit molecule as the matcher sees it: symbols, neighbour lists in RDKit order, bond types"""
+    syms = [a.GetSymbol() for a in m.GetAtoms()]
+    nb = [[n.GetIdx() for n in a.GetNeighbors()] for a in m.GetAtoms()]
+    bonds = [(b.GetBeginAtomIdx(), b.GetEndAtomIdx(), int(b.GetBondType())) for b in m.GetBonds()]
+    return "(mkgraph %s %s %s)" % (clist(syms, cstr), clist(nb, lambda l: clist(l, cnat)),
+                                   clist(bonds, lambda t: "(%s, %s, %s)" % (cnat(t[0]), cnat(t[1]), cnat(t[2]))))
+
+
+def gen_fg():
+    from synrbl.SynUtils.functional_group_utils import functional_group_config, FGConfig
+    if not isinstance(functional_group_config, dict) or not functional_group_config:
+        raise GenError("functional_group_config: unexpected shape")
+    txt = HEADER % "synrbl/SynUtils/functional_group_utils.py:functional_group_config (patterns, group sub-patterns, anti-patterns as RDKit parses them)"
+    txt += "From SynRBL Require Import Model.FGMatch.\n\n"
+    items = []
+    for name, c in functional_group_config.items():
+        if not (isinstance(name, str) and isinstance(c, FGConfig) and len(c.pattern) == len(c.groups) and len(c.pattern) >= 1):
+            raise GenError("functional group %r: unexpected shape" % (name,))
+        pats = clist(list(zip(c.pattern, c.groups)), lambda pg: cpair(mol_graph(pg[0]), mol_graph(pg[1])))
+        anti = clist(list(c.anti_pattern), mol_graph)
+        items.append("(%s, {| fg_patterns := %s; fg_anti := %s |})" % (cstr(name), pats, anti))
+    txt += "Definition fg_configs : list (string * fgconfig) :=\n  [ %s ].\n" % ";\n    ".join(items)
+    return {"GenFG.v": txt}
+
+
+GENERATORS = [gen_symbols, gen_rules, gen_const, gen_fg]
 
 
 def generate():
